@@ -24,6 +24,16 @@ Slots == << Slot("-uid", ""), Slot("-gid", ""), Slot("-inum", ""), Slot("-links"
             Slot("-amin", ""), Slot("-amin", "s"), Slot("-atime", ""), Slot("-atime", "h"), Slot("-cmin", "m"),
             Slot("-ctime", "d"), Slot("-mmin", ""), Slot("-mtime", ""), Slot("-mtime", "s"), Slot("-cmin", ""), Slot("-ctime", "") >>
 Signs == << <<>>, <<cPLUS>>, <<cMINUS>> >>
+\* every letter as a unit suffix (only the documented ones are units; the others must be refused,
+\* also when the count is large enough to overflow a multiplication by a would-be unit)
+Letters == Cp("abcdefghijklmnopqrstuvwxyzABCDEFGHIJKLMNOPQRSTUVWXYZ")
+LetterKws == <<Cp("-size"), Cp("-mtime"), Cp("-amin"), Cp("-uid"), Cp("-links")>>
+BigCounts == <<Cp("2"), Cp("2635249153387078803"), Cp("50539024859478224"), Cp("18446744073709551615"), Cp("307445734561825861")>>
+EmitLetters ==
+  vSeq = <<>> =>
+    \A k \in 1..Len(LetterKws) : \A l \in 1..Len(Letters) : \A b \in 1..Len(BigCounts) : \A sg \in 1..3 :
+      LET txt == LetterKws[k] \o <<cSP>> \o Signs[sg] \o BigCounts[b] \o <<Letters[l]>>
+      IN PrintT(ToJson([i |-> txt, e |-> ParseText(txt), tag |-> "C07"]))
 Zeros == << <<>>, <<c0>>, <<c0, c0, c0, c0, c0>> >>
 
 \* pseudo-random 64-bit-ish values from the seed (linear congruential on BigNat, deterministic)
